@@ -52,6 +52,7 @@ def run_rules(mod, chk):
         generic.flag_brackets_closed(chk)
         generic.overrides_keep_event_priority(chk)
         generic.waiting_loops_resample(chk)
+        generic.per_item_values_fresh(chk)
     chk.repo.on_func = None
     return chk
 
